@@ -2,7 +2,7 @@
   Line-protocol driver (DESIGN §3.1): one case per input line, one result line out.
   Core-only so that it links as a `lean_exe`.
 -/
-import Driver.LfsRead
+import Driver.SshPool
 
 open Desync Driver
 
@@ -13,7 +13,7 @@ partial def loop (h : IO.FS.Stream) (out : IO.FS.Stream) : IO Unit := do
   if l.isEmpty || l.startsWith "#" then
     loop h out
   else
-    let r := runLine8 l
+    let r := runLine9 l
     out.putStrLn r
     out.flush
     loop h out
